@@ -74,6 +74,8 @@ type loopInfo struct {
 }
 
 type gen struct {
+	entryMeasure string // value of the contract's `decreases` measure at entry (recursive functions)
+	depthFacts   bool   // emit the well-foundedness facts of syntax trees (astdepth) with the theory ast-valid
 	e    *Engine
 	fn   *ssa.Function
 	key  string
@@ -1137,8 +1139,18 @@ func (g *gen) run() {
 		g.alive(v.T)
 	}
 	g.entry = g.cur.clone()
+	if g.ctr != nil && g.ctr.Decreases != nil {
+		g.depthFacts = true
+	}
 	if g.ctr != nil {
 		env := g.specEnvAtEntry()
+		if g.ctr.Decreases != nil {
+			if m, err := g.evalSpec(env, g.ctr.Decreases.E); err != nil {
+				g.contractErr("decreases", "measure", err)
+			} else {
+				g.entryMeasure = m.T
+			}
+		}
 		for _, r := range g.ctr.Requires {
 			t, err := g.evalBool(env, r.E)
 			if err != nil {
